@@ -200,21 +200,20 @@ class TreeFail(Exception):
     pass
 
 
-def _round_coeffs(c, bits=40):
-    m = max(c)
-    out = []
-    for x in c:
-        x = x / m
-        out.append(Fr(int(round(x * (1 << bits))), 1 << bits) if x > 0 else Fr(0))
-    return out
+def _fdet(a, b, c):
+    return (a[0] * (b[1] * c[2] - b[2] * c[1]) + a[1] * (b[2] * c[0] - b[0] * c[2]) + a[2] * (b[0] * c[1] - b[1] * c[0]))
 
 
 class ConeTreeBuilder:
-    """Builds, per coordinate octant, a split tree whose leaves lie (up to `tol`) inside one normal
-    cone of the polytope conv(P): split points are facet normals inside the cone, then crossing
-    points of fan arcs (great-circle arcs between normals of adjacent facets) with cone edges."""
+    """Builds, per coordinate octant, a split tree whose leaves lie (up to a few `tol`) inside one
+    normal cone of the polytope conv(P).  Split directions are (i) facet normals inside the cone,
+    (ii) crossing points of fan arcs (great-circle arcs between the normals of adjacent facets) with
+    cone edges; a split direction that lies on an edge of the cone is pushed slightly OUTSIDE across
+    that edge, so that no sliver child arises (the children then overlap the neighbour cone, which
+    is harmless: children only have to cover the parent).  All generators are floats, i.e. short
+    exact rationals; child existence is decided with exact determinants, as the Coq checker does."""
 
-    def __init__(self, Pf, hull, rho, tol=1e-9, max_nodes=60000, max_level=80):
+    def __init__(self, Pf, hull, rho, tol=1e-9, max_nodes=60000, max_level=200):
         self.Pf = Pf
         self.rho = rho
         self.tol = tol
@@ -222,10 +221,10 @@ class ConeTreeBuilder:
         self.max_level = max_level
         self.nodes = 0
         self.leaves = 0
+        self.bisections = 0
         self.used = {}
         eq = hull.equations
         N = eq[:, :3] / np.linalg.norm(eq[:, :3], axis=1)[:, None]
-        # merge coplanar simplices
         key = {}
         gid = []
         reps = []
@@ -237,9 +236,9 @@ class ConeTreeBuilder:
             gid.append(key[k])
         self.N = np.array(reps)
         arcs = set()
-        for s, nb in enumerate(hull.neighbors):
+        for s_, nb in enumerate(hull.neighbors):
             for t in nb:
-                a, b = gid[s], gid[t]
+                a, b = gid[s_], gid[t]
                 if a != b:
                     arcs.add((min(a, b), max(a, b)))
         self.arcs = np.array(sorted(arcs), dtype=int).reshape(-1, 2)
@@ -251,102 +250,118 @@ class ConeTreeBuilder:
         self.arcs = self.arcs[ok]
         self.arcM = M[ok] / nm[ok][:, None]
         self.hv = hull.vertices
+        self.V = Pf[self.hv]
         self.scale = max(1.0, float(np.max(np.abs(Pf))))
 
     def build_all(self):
         trees = []
         for (s1, s2, s3) in [(1, 1, 1), (1, 1, -1), (1, -1, 1), (1, -1, -1), (-1, 1, 1), (-1, 1, -1), (-1, -1, 1), (-1, -1, -1)]:
-            G = [[Fr(s1), Fr(0), Fr(0)], [Fr(0), Fr(s2), Fr(0)], [Fr(0), Fr(0), Fr(s3)]]
+            G = np.array([[float(s1), 0.0, 0.0], [0.0, float(s2), 0.0], [0.0, 0.0, float(s3)]])
             trees.append(self.build(G, np.arange(len(self.N)), np.arange(len(self.arcs)), 0))
         return trees
 
     def leaf_point(self, Gf):
         cen = Gf.sum(axis=0)
         cen = cen / np.linalg.norm(cen)
-        V = self.Pf[self.hv]
         dirs = np.vstack([Gf, cen[None]])
-        cand = set(int(np.argmax(V @ d)) for d in dirs)
+        cand = set(int(np.argmax(self.V @ d)) for d in dirs)
         best = None
         for c in cand:
-            m = float(np.min(Gf @ V[c]))
+            m = float(np.min(Gf @ self.V[c]))
             if best is None or m > best[0]:
                 best = (m, int(self.hv[c]))
         return best
 
     def build(self, G, nid, aid, level):
+        """G: 3x3 float array, rows = generators (any orientation)"""
         self.nodes += 1
         if self.nodes > self.max_nodes or level > self.max_level:
             raise TreeFail(f"budget exceeded (nodes={self.nodes}, level={level})")
-        Gf = np.array([[float(x) for x in g] for g in G])
-        ln = np.linalg.norm(Gf, axis=1)
-        Gf = Gf / ln[:, None]
+        ln = np.linalg.norm(G, axis=1)
+        Gf = G / ln[:, None]
         m, p = self.leaf_point(Gf)
         if m >= self.rho + 1e-11 * self.scale:
             self.leaves += 1
             self.used.setdefault(p, len(self.used))
             return ("L", p)
         tol = self.tol
+        nid_in = nid
+        det = abs(float(np.linalg.det(Gf)))
         # 1. facet normals inside the cone (not at a generator)
-        if len(nid):
+        if len(nid) and det > 1e-7:
             Nn = self.N[nid]
-            try:
-                C = np.linalg.solve(Gf.T, Nn.T).T        # rows: coefficients of each normal
-            except np.linalg.LinAlgError:
-                raise TreeFail("degenerate cone")
+            C = np.linalg.solve(Gf.T, Nn.T).T        # rows: coefficients of each normal
             inside = np.all(C >= -tol, axis=1)
             Cc = np.where(C < tol, 0.0, C)
             npos = (Cc > 0).sum(axis=1)
-            at_gen = (npos <= 1)
-            # a normal that coincides with a generator up to tol
-            close = (Nn @ Gf.T).max(axis=1) > 1 - 1e-14
-            cand = np.where(inside & ~at_gen & ~close)[0]
+            close = (Nn @ Gf.T).max(axis=1) > 1 - 1e-15
+            cand = np.where(inside & (npos >= 2) & ~close)[0]
             nid_in = nid[inside]
             if len(cand):
-                k = cand[int(np.argmax(Cc[cand].min(axis=1) + 1e-3 * np.sort(Cc[cand], axis=1)[:, 1]))]
-                c = [float(Cc[k, j] / ln[j]) for j in range(3)]
-                return self.split(G, c, nid_in[nid_in != nid[k]], aid, level)
-        else:
-            nid_in = nid
+                srt = np.sort(Cc[cand], axis=1)
+                k = cand[int(np.argmax(srt[:, 0] + 1e-3 * srt[:, 1]))]
+                zero = [j for j in range(3) if Cc[k, j] == 0.0]
+                g = Nn[k] - sum((C[k, j] * Gf[j] for j in zero), np.zeros(3))
+                return self.split(G, g, zero, nid_in[nid_in != nid[k]], aid, level)
         # 2. fan arcs crossing the cone
+        aid2 = aid
         if len(aid):
             Mx = self.arcM[aid]
             S = Mx @ Gf.T                      # signs of the generators w.r.t. each great circle
-            pos = S > tol
-            neg = S < -tol
+            pos = S > 2.0 * tol
+            neg = S < -2.0 * tol
             crossing = pos.any(axis=1) & neg.any(axis=1)
             aid2 = aid[crossing]
             for idx in np.where(crossing)[0]:
                 a = self.N[self.arcs[aid[idx], 0]]
                 b = self.N[self.arcs[aid[idx], 1]]
                 mm = Mx[idx]
-                s = S[idx]
-                for (i, j) in ((0, 1), (1, 2), (0, 2)):
+                s_ = S[idx]
+                for (i, j, k) in ((0, 1, 2), (1, 2, 0), (0, 2, 1)):
                     if (pos[idx, i] and neg[idx, j]) or (neg[idx, i] and pos[idx, j]):
-                        u = abs(s[j]) * Gf[i] + abs(s[i]) * Gf[j]
+                        u = abs(s_[j]) * Gf[i] + abs(s_[i]) * Gf[j]
                         u = u / np.linalg.norm(u)
                         if float(np.cross(a, u) @ mm) > tol and float(np.cross(u, b) @ mm) > tol and float(u @ (a + b)) > 0:
-                            c = [0.0, 0.0, 0.0]
-                            c[i] = abs(s[j]) / ln[i]
-                            c[j] = abs(s[i]) / ln[j]
-                            return self.split(G, c, nid_in, aid2, level)
-        else:
-            aid2 = aid
-        raise TreeFail(f"no split found for a cone whose best point reaches {m!r} < rho={self.rho!r} (level {level})")
+                            return self.split(G, u, [k], nid_in, aid2, level)
+        # 3. sliver (or numerically odd) cone: bisect the longest edge
+        self.bisections += 1
+        if self.bisections > 4000:
+            raise TreeFail(f"too many bisections; a cone's best point reaches {m!r} < rho={self.rho!r} (level {level})")
+        best = max(((0, 1, 2), (1, 2, 0), (0, 2, 1)), key=lambda t: -float(Gf[t[0]] @ Gf[t[1]]))
+        i, j, k = best
+        u = Gf[i] + Gf[j]
+        u = u / np.linalg.norm(u)
+        return self.split(G, u, [k], nid_in, aid2, level)
 
-    def split(self, G, c, nid, aid, level):
-        cq = _round_coeffs(c)
-        if not any(x > 0 for x in cq):
-            raise TreeFail("zero split")
-        g = [sum(cq[k] * G[k][i] for k in range(3)) for i in range(3)]
+    def split(self, G, g, zero, nid, aid, level):
+        """split at direction g; for k in `zero` the direction lies on the face opposite to generator k
+        (up to rounding) and is pushed across it until the exact determinant says so"""
+        Gq = [[Fr(float(x)) for x in row] for row in G]
+        D = _fdet(Gq[0], Gq[1], Gq[2])
+        Gf = G / np.linalg.norm(G, axis=1)[:, None]
+        eps = 1e-13
+        while True:
+            g2 = np.array(g, float)
+            for k in zero:
+                g2 = g2 - eps * Gf[k]
+            gq = [Fr(float(x)) for x in g2]
+            d = [_fdet(gq, Gq[1], Gq[2]) * D, _fdet(Gq[0], gq, Gq[2]) * D, _fdet(Gq[0], Gq[1], gq) * D]
+            if all(d[k] <= 0 for k in zero):
+                break
+            eps *= 10.0
+            if eps > 1e-8:
+                raise TreeFail("could not push a split direction across a cone face")
+        if not any(x > 0 for x in d):
+            raise TreeFail("split direction not in front of the cone")
         kids = []
         for k in range(3):
-            if cq[k] > 0:
-                G2 = list(G)
-                G2[k] = g
+            if d[k] > 0:
+                G2 = G.copy()
+                G2[k] = g2
                 kids.append(self.build(G2, nid, aid, level + 1))
             else:
                 kids.append(None)
-        return ("S", cq, kids)
+        return ("S", [float(x) for x in g2], kids)
 
 
 def tree_expr(t, remap):
@@ -354,8 +369,8 @@ def tree_expr(t, remap):
         return "(CLeaf 0)"
     if t[0] == "L":
         return f"(CLeaf {remap[t[1]]})"
-    _, cq, kids = t
-    return "(CSplit " + " ".join(nw._q(x) for x in cq) + " " + " ".join(tree_expr(k, remap) for k in kids) + ")"
+    _, g, kids = t
+    return "(CSplit " + nw.vq(g) + " " + " ".join(tree_expr(k, remap) for k in kids) + ")"
 
 
 def depth_ge_args(sA, sB, rho, DH=None, tol=1e-9):
@@ -368,7 +383,7 @@ def depth_ge_args(sA, sB, rho, DH=None, tol=1e-9):
     order = sorted(remap, key=lambda k: remap[k])
     ws = "[" + "; ".join(f"({DH['W'][i][0]}, {DH['W'][i][1]})" for i in order) + "]"
     te = "[" + "; ".join(tree_expr(t, remap) for t in trees) + "]"
-    return ws, te, dict(nodes=b.nodes, leaves=b.leaves, points=len(order), facets=int(len(b.N)), arcs=int(len(b.arcs)))
+    return ws, te, dict(nodes=b.nodes, leaves=b.leaves, bisections=b.bisections, points=len(order), facets=int(len(b.N)), arcs=int(len(b.arcs)))
 
 
 # ----------------------------------------------------------------------------- overlapping pairs
